@@ -329,12 +329,14 @@ type Exec struct {
 	R        *Rig
 	S        *Store
 	Calls    []Call
-	cache    map[string]ast.StmtNode
+	cache    map[string]*sqlref.Prepared
 	lastID   uint64
 	ParseErr int
 }
 
-func (r *Rig) NewExec(s *Store) *Exec { return &Exec{R: r, S: s, cache: map[string]ast.StmtNode{}} }
+func (r *Rig) NewExec(s *Store) *Exec {
+	return &Exec{R: r, S: s, cache: map[string]*sqlref.Prepared{}}
+}
 
 // Reset points the executor at another store, keeping the parse cache.
 func (e *Exec) Reset(s *Store) { e.S = s; e.Calls = e.Calls[:0] }
@@ -353,12 +355,12 @@ func (e *Exec) NonEmpty() int {
 func (e *Exec) one(slice, db, sql string) (*mysql.Result, error) {
 	st, ok := e.cache[sql]
 	if !ok {
-		var err error
-		st, err = e.R.Parse(sql)
+		n, err := e.R.Parse(sql)
 		if err != nil {
 			e.ParseErr++
 			return nil, fmt.Errorf("backend %s: syntax error in %q: %v", slice, sql, err)
 		}
+		st = &sqlref.Prepared{Stmt: n}
 		e.cache[sql] = st
 	}
 	sd := e.S.Shards[slice]
@@ -367,7 +369,7 @@ func (e *Exec) one(slice, db, sql string) (*mysql.Result, error) {
 	}
 	view := *sd
 	view.Default = strings.ToLower(db)
-	res, err := sqlref.Exec(&view, st)
+	res, err := st.Exec(&view)
 	if err != nil {
 		return nil, fmt.Errorf("backend %s/%s: %v (sql: %s)", slice, db, err, sql)
 	}
